@@ -6,7 +6,7 @@ import itertools
 import numpy as np
 
 from simkit.engine import Engine, jhash
-from simkit.kernel import EventLog, Rng, Violation, dim_sig, exc_class
+from simkit.kernel import EventLog, Rng, Violation, detach_exc, dim_sig, exc_class
 
 from flodym import Dimension, DimensionSet, FlodymArray
 
@@ -266,6 +266,7 @@ class DimSim(Engine):
             return ("ret", fn())
         except Exception as e:  # noqa
             st.log.add("raise", exc=exc_class(e))
+            detach_exc(e)
             return ("raise", e)
 
     def _key(self, st, idx, form):
